@@ -53,7 +53,7 @@ pub fn escape(bytes: &[u8]) -> String
 	s
 }
 
-pub fn read_cases(path: &str) -> Vec<(String, Vec<u8>)>
+fn read_cases_vec(path: &str) -> Vec<(String, Vec<u8>)>
 {
 	let f = std::fs::File::open(path).expect("case file");
 	let mut cases = Vec::new();
@@ -72,6 +72,61 @@ pub fn read_cases(path: &str) -> Vec<(String, Vec<u8>)>
 		cases.push((id.to_string(), unescape(payload)));
 	}
 	cases
+}
+
+/// The cases of a case file; every step of the iteration tells the watchdog
+/// which case is running and since when.
+pub struct Cases
+{
+	inner: std::vec::IntoIter<(String, Vec<u8>)>,
+}
+
+impl Iterator for Cases
+{
+	type Item = (String, Vec<u8>);
+
+	fn next(&mut self) -> Option<Self::Item>
+	{
+		let item = self.inner.next();
+		let mut cur = CURRENT_CASE.lock().unwrap();
+		*cur = item.as_ref().map(|(id, _)| (id.clone(), std::time::Instant::now()));
+		item
+	}
+}
+
+static CURRENT_CASE: std::sync::Mutex<Option<(String, std::time::Instant)>> =
+	std::sync::Mutex::new(None);
+
+pub fn read_cases(path: &str) -> Cases
+{
+	Cases {
+		inner: read_cases_vec(path).into_iter(),
+	}
+}
+
+/// A case that runs longer than PVH_CASE_TIMEOUT seconds (default 30) ends the
+/// process: its line says `timeout`, the caller re-runs the remaining cases.
+pub fn start_watchdog()
+{
+	let limit: u64 = std::env::var("PVH_CASE_TIMEOUT")
+		.ok()
+		.and_then(|x| x.parse().ok())
+		.unwrap_or(30);
+	std::thread::spawn(move || loop
+	{
+		std::thread::sleep(std::time::Duration::from_millis(500));
+		let cur = CURRENT_CASE.lock().unwrap().clone();
+		if let Some((id, since)) = cur
+		{
+			if since.elapsed().as_secs() >= limit
+			{
+				println!("{}\ttimeout", id);
+				use std::io::Write;
+				let _ = std::io::stdout().flush();
+				std::process::exit(7);
+			}
+		}
+	});
 }
 
 /// Run a closure, turning a panic into "panic@file:line message".
